@@ -748,7 +748,12 @@ package websocket
 
 // ---------------------------------------------------------------------------------------------
 // The Handler interface as seen by the connection loop: every method is an abstract event that may
-// change anything (the concrete RealtimeHandler methods are proved against their own contracts).
+// change anything except the preserved arrays (the concrete RealtimeHandler methods are proved against
+// their own contracts). Every implementation in the repository (RealtimeHandler, handlerWithMetrics,
+// handlerWithLogs) is checked against these contracts: its body, or the frame of its own contract, must
+// stay within the frame written here (obligations `implements:frame:...` and the functions
+// `<method>@<interface method>`). A method may write the fields of its own receiver object (the decorators
+// keep their bookkeeping there); the preserved patterns are stated for every other object.
 // ---------------------------------------------------------------------------------------------
 
 //@ func (websocket.Handler).HandlePing
@@ -908,6 +913,12 @@ package websocket
 //@   allocates
 //@   trusted_ensures result > 0
 
+// configuration invariant of the concrete handler: cmd/main.go passes a positive interval (a ticker panics on <= 0)
+//@ func (*websocket.RealtimeHandler).SyncClockInterval
+//@   requires h.ClientSyncClockInterval > 0
+//@   modifies nothing
+//@   ensures result == h.ClientSyncClockInterval
+
 //@ func (websocket.Handler).Sender
 //@   modifies nothing
 //@   allocates
@@ -920,8 +931,17 @@ package websocket
 //@   modifies nothing
 //@   allocates
 
+// Close: the logging decorator flushes its message counters and stops its summary worker here, so Close is
+// not read-only; it leaves the connection loop's own state, the metrics decorator and the ghost counters alone.
 //@ func (websocket.Handler).Close
-//@   modifies nothing
+//@   modifies all *
+//@   preserves websocket.handler., websocket.handlerWithMetrics., cell:, ghost.ctxcancelled, ghost.evn:handleDisconnect
+//@   allocates
+
+// trusted frame (the body ranges over the counter map and builds a log entry through the logging library)
+//@ func (*websocket.handlerWithLogs).logSummary
+//@   trusted
+//@   modifies contents(h.counter)
 //@   allocates
 
 //@ func (*websocket.handler).handleMessage
